@@ -47,7 +47,9 @@ RULE = ('horizontal: grid pairs from spherical_harmonic.Grid with 4..24 longitud
         'beyond one cell, beyond 2pi, the [-pi, pi) layout, 0.05% and 0.2% of a cell), coarser / finer / '
         'equal / non-nested, 3 -> 4 and 4 -> 3 longitudes (outside the domain), plus raw non-uniform '
         'coordinate vectors (sizes 1,2,3 first); fields standard normal with NaN patterns (none, one cell, '
-        '10%, a full row, all); vertical: random hybrid coefficient sets (1..12 layers, top at or above '
+        '10%, a full row, all); stacked fields with leading shapes (3,), (4,), (2,2) whose NaN pattern differs '
+        'between slices (moving hole, one slice with a missing row, one slice entirely missing, random densities), '
+        'random and constant values; vertical: random hybrid coefficient sets (1..12 layers, top at or above '
         'zero pressure), surface pressures 500..1100, sigma level sets from dinoutil.random_boundaries, raw '
         'bound vectors with the source range inside / beyond / disjoint from the target range; a case is '
         'non-trivial when the two partitions are not identical; distinct = distinct input hashes')
@@ -406,6 +408,8 @@ def run(ctx: common.Ctx):
 
   # ---- 5. the regridder objects: weights and __call__ with NaN patterns, both skipna modes
   npairs = ctx.n(11, 100)         # quick: 10 forced pairs + 1 random pair
+  import time as _time
+  t_batched = 0.0
   pairs = []
   not_equispaced, equi_not_applied = [], []
   for pi, (ss, ts, tag) in enumerate(grid_pair_specs(rng, npairs, ctx.n(10, 12))):
@@ -465,7 +469,13 @@ def run(ctx: common.Ctx):
             f'{fvec(gs.latitudes)} {fvec(gt.latitudes)} {optmat(f)}', 'ConservativeRegridder.__call__', inp, out,
             'optmat')
         probe_nan(ctx, geo, f, out, skip, inp)
+    # fields with leading (time / level / batch) dimensions whose NaN pattern differs from slice to slice
+    if tag in BATCH_TAGS or (not ctx.quick and tag == 'random' and pi % 4 == 0):
+      t0 = _time.time()
+      batched_nan_cases(ctx, jnp, add, ss, ts, tag, gs, gt, geo, regs, hp, per)
+      t_batched += _time.time() - t0
 
+  ctx.notes.append(f'timing [s]: batched NaN cases (real code, slice-by-slice reference, oracle) = {t_batched:.1f}')
   ctx.obligation('Grid.longitudes are the equispaced points off + i P/n of lonWeights_conservative_equispaced',
                  'hypothesis', not not_equispaced, f'not equispaced: {not_equispaced[:3]}')
   ctx.obligation('1/n_s + 1/n_t < 1/2 implies the hypotheses of lonWeights_conservative_of_offset_points on the doubles',
@@ -625,6 +635,94 @@ def probe_nan(ctx, geo, f, out, skip, inp):
     scale = np.nanmax(np.abs(np.where(null, 0, f))) + 1e-300
     ctx.expect(np.abs(out - ref)[ok].max() < 1e-9 * scale, 'nan-mean-value',
                f'skipna={skip}: output is not the weighted mean of the non-NaN overlapping inputs', inp)
+
+
+BATCH_TAGS = ('coarser-nested', 'finer-nested', 'non-nested', 'offset-negative', 'half-cell-offset')
+
+
+def batched_masks(rng, lead, shape, variant):
+  """Missing-value masks (True = NaN) of shape lead + shape that differ between the leading slices."""
+  m = np.zeros(lead + shape, dtype=bool)
+  idx = list(np.ndindex(*lead))
+  if variant == 'moving-hole':          # one hole per slice, at a different place; first slice complete
+    for n, ix in enumerate(idx[1:]):
+      i, j = (1 + 2 * n) % shape[0], n % shape[1]
+      m[ix][i, j] = True
+      m[ix][(i + 1) % shape[0], j] = True
+  elif variant == 'one-slice-row':      # only the last slice has missing values: a whole longitude row
+    m[idx[-1]][int(rng.integers(0, shape[0]))] = True
+  elif variant == 'all-vs-none':        # one slice entirely missing, the others complete
+    m[idx[len(idx) // 2]] = True
+  else:                                 # independent random patterns with different densities
+    for n, ix in enumerate(idx):
+      m[ix] = rng.random(shape) < [0.0, 0.15, 0.5, 0.9][n % 4]
+  return m
+
+
+def batched_nan_cases(ctx, jnp, add, ss, ts, tag, gs, gt, geo, regs, hp, per):
+  """`ConservativeRegridder.__call__` on stacked fields whose NaN pattern is NOT the same in every slice: every
+  slice must come out as if it had been regridded on its own.  Expected values: the model (one `call` per slice, in
+  the correspondence stream), the real regridder applied slice by slice, and the oracle geometry per slice
+  (`probe_nan`: NaN exactly where the per-slice rule says, values = weighted mean of the valid overlapping inputs);
+  constants with holes are reproduced and the outputs stay inside the range of the valid inputs of their slice."""
+  rng = ctx.rng
+  variants = ['moving-hole', 'one-slice-row', 'all-vs-none', 'random']
+  plans = [((3,), variants[(len(ss) + ss[0] + ts[0]) % 4]), ((2, 2), variants[(ss[0] + ts[1] + 1) % 4])]
+  if tag == 'non-nested':
+    plans = [((3,), 'moving-hole'), ((2, 2), 'one-slice-row'), ((4,), 'random'), ((3,), 'all-vs-none')]
+  for lead, variant in plans:
+    mask = batched_masks(rng, lead, gs.nodal_shape, variant)
+    c = float(rng.uniform(1, 5)) * float(rng.choice([-1, 1]))
+    for kind in ('random', 'constant'):
+      base = rng.standard_normal(lead + gs.nodal_shape) if kind == 'random' else np.full(lead + gs.nodal_shape, c)
+      f = np.where(mask, np.nan, base)
+      ctx.dist[f'batched-nan:lead={lead}:{variant}:{kind}'] += 1
+      for skip in (False, True):
+        inp = dict(source=ss, target=ts, skipna=skip, leading_shape=list(lead), nan_pattern=variant, values=kind,
+                   field=f.tolist())
+        ctx.case(('batched-call', repr(ss), repr(ts), skip, f.tobytes()), nontrivial=True,
+                 sample=dict(inp, field='...') if (lead, variant, kind, skip) == ((3,), 'moving-hole', 'random', True)
+                 else None)
+        with ctx.impl('batched-nan-exception', inp):
+          with np.errstate(all='ignore'):
+            out = np.asarray(regs[skip](jnp.asarray(f)))
+          ok_shape = out.shape == lead + tuple(gt.nodal_shape)
+          ctx.expect(ok_shape, 'batched-nan-shape', f'output shape {out.shape} for a field of shape {f.shape}', inp)
+          if not ok_shape:
+            continue
+          for ix in np.ndindex(*lead):
+            fk, ok_ = f[ix], out[ix]
+            inpk = dict(inp, slice=list(ix), field=fk.tolist(), other_slices_have_different_nans=True)
+            # the model on this slice alone
+            add(f'regrid F call {int(skip)} {hp} {per} {fvec(gs.longitudes)} {fvec(gt.longitudes)} '
+                f'{fvec(gs.latitudes)} {fvec(gt.latitudes)} {optmat(fk)}', 'ConservativeRegridder.__call__[batched]',
+                inpk, ok_, 'optmat')
+            # the real regridder on this slice alone
+            with np.errstate(all='ignore'):
+              single = np.asarray(regs[skip](jnp.asarray(fk)))
+            same_nan = np.array_equal(np.isnan(ok_), np.isnan(single))
+            both = ~np.isnan(ok_) & ~np.isnan(single)
+            scale = max(1.0, float(np.nanmax(np.abs(fk))) if (~np.isnan(fk)).any() else 1.0)
+            with np.errstate(all='ignore'):
+              close = bool((np.abs(ok_ - single)[both] <= 1e-11 * scale).all())
+            ctx.expect(same_nan and close, 'batched-nan-slicewise',
+                       f'skipna={skip}: slice {list(ix)} of a batched call differs from regridding that slice on its '
+                       f'own (NaN placement equal: {same_nan}, values equal: {close})', inpk)
+            # the per-slice rule on the oracle geometry
+            probe_nan(ctx, geo, fk, ok_, skip, inpk)
+            fin = ~np.isnan(ok_)
+            if (~np.isnan(fk)).any():
+              lo_, hi_ = float(np.nanmin(fk)), float(np.nanmax(fk))
+              ctx.expect(bool(((ok_[fin] >= lo_ - 1e-11 * scale) & (ok_[fin] <= hi_ + 1e-11 * scale)).all()),
+                         'batched-nan-range', f'skipna={skip}: slice {list(ix)} leaves the range [{lo_}, {hi_}] of its '
+                         f'valid inputs: [{ok_[fin].min() if fin.any() else None}, {ok_[fin].max() if fin.any() else None}]',
+                         inpk)
+            else:
+              ctx.expect(not fin.any(), 'batched-nan-all-missing',
+                         f'skipna={skip}: a slice without any valid input gives numbers', inpk)
+            if kind == 'constant':
+              ctx.expect(bool((np.abs(ok_[fin] - c) <= 1e-11 * abs(c)).all()), 'batched-nan-constants',
+                         f'skipna={skip}: constant {c} with holes not reproduced in slice {list(ix)}', inpk)
 
 
 def probe_pair(ctx, jnp, hi, ss, ts, tag, gs, gt, geo, regs):
